@@ -457,7 +457,11 @@ func (e *c33Env) roundTrip(comp string, src string, v uint64, name string, modes
 	}
 	ops2, err2 := AssembleString(c33NoTrack(text))
 	if err2 != nil {
-		e.fail("C33:reasm-error:"+name, fmt.Sprintf("v%d: disassembly does not re-assemble: %v (%v)\nsource:\n%s\ndisassembly:\n%s", v, err2, ops2.Errors, src, text), replay)
+		key := "C33:reasm-error:" + name
+		if comp == "E" && !strings.Contains(fmt.Sprint(err2, ops2.Errors), "is not defined") {
+			key = "C33:reasm-error:probe-other-failure" // only the known symptom goes under the known key
+		}
+		e.fail(key, fmt.Sprintf("v%d: disassembly does not re-assemble: %v (%v)\nsource:\n%s\ndisassembly:\n%s", v, err2, ops2.Errors, src, text), replay)
 		return true
 	}
 	if !bytes.Equal(ops2.Program, p) {
@@ -701,8 +705,8 @@ func c33PartD(e *c33Env, minLen, maxLen int) {
 	versions := int(LogicVersion) + 1
 	// membership of field groups in ANY version, for the invalid-immediate bracket
 	e.r.ParallelFor(versions*256, func(i int) {
-		v := uint64(i / 256)
-		b0 := byte(i % 256)
+		v := uint64(i % versions) // version fastest: a capped run still touches every version
+		b0 := byte(i / versions)
 		proto := e.maxP
 		var txn transactions.SignedTxn
 		txn.Txn.Type = protocol.PaymentTx
